@@ -36,7 +36,7 @@ Definition has_skey (s : string) (v : value) : bool := has_key s (dict_items v).
 Fixpoint memt (v : value) (t : ty) {struct t} : bool :=
   match t with
   | TAny => false
-  | TCls c => N.eqb (class_of v) c
+  | TCls c => is_plain v && N.eqb (class_of v) c     (* only plain instances witness a class alternative *)
   | TType t' => match v with VClassObj c => match t' with TCls c0 => N.eqb c c0 | _ => false end | _ => false end
   | TCallable => match v with VCallable => true | _ => false end
   | TList t' => match v with VList es => forallb (fun e => memt e t') es | _ => false end
@@ -58,7 +58,28 @@ Fixpoint memt (v : value) (t : ty) {struct t} : bool :=
   | TTupleVar t' => match v with VTuple es => forallb (fun e => memt e t') es | _ => false end
   | TUnion ts => (fix ex (ts : list ty) : bool :=
                     match ts with [] => false | t1 :: r => memt v t1 || ex r end) ts
-  | TTypedDict _ _ => member false subN v t
+  | TTypedDict req opt =>
+      (* as `member`, but field values are matched with memt again (so a defaultdict under a key does not
+         witness a Dict-typed field) *)
+      match v with
+      | VDict kvs =>
+          forallb (fun kv =>
+                     match fst kv with
+                     | VStr s =>
+                         (fix find (fs : list (string * ty)) : bool :=
+                            match fs with
+                            | f :: r => if String.eqb s (fst f) then memt (snd kv) (snd f) else find r
+                            | [] =>
+                                (fix find2 (fs2 : list (string * ty)) : bool :=
+                                   match fs2 with
+                                   | f :: r => if String.eqb s (fst f) then memt (snd kv) (snd f) else find2 r
+                                   | [] => false
+                                   end) opt
+                            end) req
+                     | _ => false
+                     end) kvs
+          && forallb (fun f => has_key (fst f) kvs) req
+      | _ => false end
   | TFwd _ => false
   end.
 
